@@ -703,3 +703,66 @@ def c13(tier):
 
 
 CHECKS["C13"] = c13
+
+
+# ----------------------------------------------------------------------- C12
+
+def c12(tier):
+    t0 = time.time()
+    wd = core.workdir("C12")
+    q = tier == "quick"
+    mcs = [mc_run("MC_Bigint", "MC_Bigint" if q else "MC_Bigint_full", "C12-mc-stack", timeout=3000),
+           mc_run("MC_Bigint", "MC_BigintHeapCompact", "C12-mc-heap", timeout=3000)]
+    inputs = gen.g_bigint(gen.rng_for("C12"), tier)
+    plan = [("std", "stack"), ("std+compact+alloc", "heapcompact")] if q else \
+           [("std", "stack"), ("std+compact", "stackcompact"), ("std+alloc", "heap"), ("std+compact+alloc", "heapcompact")]
+    violations, tool = [], []
+    trails = collections.Counter()
+    drift = 0
+    states = trans = nrec = 0
+    for cfg, variant in plan:
+        outs = run_records(wd, "run_bigint", inputs, [cfg], name="bigint-" + variant)[cfg]
+        outs = [o for o in outs if o["res"]["r"] != "skip"]
+        path = os.path.join(wd, "C12-%s-records.ndjson" % variant)
+        core.write_ndjson(path, outs)
+        res = core.tlc(os.path.join(core.SPEC, "cf", "CF_Bigint.tla"), os.path.join(core.SPEC, "cf", "CF_Bigint_%s.cfg" % variant),
+                       "C12-" + variant, env={"VERIF_RECORDS": path}, coverage=False, timeout=3000)
+        verd = {p["id"]: p for p in res.prints if isinstance(p, dict) and "id" in p}
+        if core.tlc_fatal(res) or len(verd) != len(outs):
+            raise core.ToolError("CF_Bigint (%s) decided %d of %d records: %s" % (variant, len(verd), len(outs), core.tlc_fatal(res)[:2]))
+        by_id = {o["id"]: o for o in outs}
+        for rid, v in verd.items():
+            trails["%s: %s > %s" % (variant, v["trail"][0], v["trail"][1])] += 1
+            if v["trail"][2] == "DRIFT":
+                drift += 1
+            if v["verdict"] == "impl_violates":
+                violations.append(core.write_replay("C12", {"property": "C12", "config": cfg, "record": by_id[rid], "verdict": v}))
+            elif v["verdict"] != "ok":
+                tool.append((cfg, rid, v))
+        states += res.distinct
+        trans += res.generated
+        nrec += len(outs)
+    cov = {
+        "states": states + sum(m.distinct for m in mcs), "transitions": trans + sum(m.generated for m in mcs),
+        "traces_validated_against_impl": nrec, "evaluations": nrec,
+        "distinct_nontrivial": len({(r["op"], str(r["x"]), str(r["y"]), r["n"]) for r in inputs}),
+        "rule": "MC_Bigint: every pair of operand vectors over 3-bit limbs up to capacity 3 through the limb-level algorithms "
+                "(large_add_from at every offset, long_mul, large_mul, shl / shl_bits / shl_limbs, stepped pow, bit_length, compare, "
+                "hi64) against natural-number arithmetic, incl. failure <=> result does not fit. CF: operations on operands of "
+                "0..62 limbs (all-ones, single high bit, sparse, random, powers of five), products and shifts within, at and one limb "
+                "beyond the capacity, pow exponents across the 27 / 135 steps up to overflow, in stack and heap builds; TLC "
+                "compares the returned contents with the natural-number result and with the limb-level model",
+        "samples": [{k: (v if k not in ("x", "y") else "%d limbs" % len(v)) for k, v in r.items()} for r in inputs[:: max(1, len(inputs) // 6)]][:7],
+        "spec_trails": dict(trails), "model_vs_impl_drift": drift, "mc_states": [m.distinct for m in mcs],
+        "configs": [p[0] for p in plan], "exhaustive": False,
+    }
+    core.write_evidence("C12", tier, "model_checking", cov, time.time() - t0, len(violations),
+                        assumptions=["operands in the range the property names: non-zero normalised factors, normalised input for hi64 / compare"])
+    if drift:
+        core.log("NOTE: %d records where the limb-level model and the implementation differ (DRIFT)" % drift)
+    if tool:
+        raise core.ToolError("records outside the domain were generated: %s" % tool[:3])
+    core.finish("C12", violations, [])
+
+
+CHECKS["C12"] = c12
